@@ -111,6 +111,8 @@ func (e *c16Env) newIndex(timeField bool) string {
 	}
 	if timeField {
 		mk("t", OptFieldTypeTime(TimeQuantum("YMD")))
+		mk("bf", OptFieldTypeBool())
+		mk("a", OptFieldTypeDefault())
 	} else {
 		mk("a", OptFieldTypeDefault())
 		mk("b", OptFieldTypeSet(CacheTypeNone, 0))
@@ -1402,6 +1404,114 @@ func c16Part2(c *vx.Check) {
 	}, nil)
 }
 
+// part 3: a bool field is a field too: Rows / GroupBy / MinRow / MaxRow over it (rows false=0, true=1).
+func c16Part3(c *vx.Check) {
+	type bbit struct {
+		val bool
+		col uint64
+	}
+	cand := []bbit{{true, 0}, {false, c16SW}, {true, c16SW + 1}, {false, 1}}
+	c.Bound("part3_datasets", 1<<uint(len(cand)))
+	c.ProcFor(c.NextRunLabel(), 1<<uint(len(cand)), nil, func(_ []byte, mask int, _ func([]byte)) {
+		if c.Expired() {
+			return
+		}
+		e := c16GetEnv()
+		defer c16PutEnv(e)
+		index := e.newIndex(true)
+		defer e.dropIndex(index)
+		m := c16NewModel()
+		var sb strings.Builder
+		var desc []string
+		for k, b := range cand {
+			if mask&(1<<uint(k)) == 0 {
+				continue
+			}
+			r := uint64(0)
+			if b.val {
+				r = 1
+			}
+			// a bool column holds one value: a later write to the same column would replace it; the
+			// candidate columns are distinct, so the model is a plain set of bits
+			m.set(c16Bit{"bf", r, b.col}, true)
+			fmt.Fprintf(&sb, "Set(%d, bf=%v)\n", b.col, b.val)
+			desc = append(desc, fmt.Sprintf("bf=%v@%d", b.val, b.col))
+		}
+		// field a: row 0 on columns 0 and SW (for GroupBy with a second field)
+		for _, col := range []uint64{0, c16SW} {
+			m.set(c16Bit{"a", 0, col}, true)
+			fmt.Fprintf(&sb, "Set(%d, a=0)\n", col)
+		}
+		if _, err := e.query(index, sb.String()); err != nil {
+			c.Violate("write refused", fmt.Sprint(desc), err.Error(), "<nil>")
+			return
+		}
+		ds := fmt.Sprintf("bool field bits=%v (+a0@0,a0@%d)", desc, c16SW)
+		var calls []c16Call
+		rowsCall := func(q string, a c16RowsArgs) {
+			want := fmt.Sprint(a.eval(m))
+			calls = append(calls, c16Call{pql: q, judge: func(v interface{}) (string, string, string) {
+				got := c16GotRows(v)
+				if _, isErr := v.(error); isErr {
+					got = fmt.Sprint(v)
+				}
+				return got, want, "Rows on a bool field wrong args=" + a.shape()
+			}})
+		}
+		rowsCall("Rows(bf)", c16RowsArgs{f: "bf"})
+		rowsCall("Rows(bf, limit=1)", c16RowsArgs{f: "bf", hasLimit: true, limit: 1})
+		rowsCall("Rows(bf, previous=false)", c16RowsArgs{f: "bf", hasPrev: true, prev: 0})
+		rowsCall("Rows(bf, previous=true)", c16RowsArgs{f: "bf", hasPrev: true, prev: 1})
+		for _, col := range []uint64{0, 1, c16SW, c16SW + 1} {
+			rowsCall(fmt.Sprintf("Rows(bf, column=%d)", col), c16RowsArgs{f: "bf", hasCol: true, col: col})
+		}
+		for _, g := range []c16GB{
+			{kids: []c16RowsArgs{{f: "bf"}}},
+			{kids: []c16RowsArgs{{f: "a"}, {f: "bf"}}},
+			{kids: []c16RowsArgs{{f: "bf"}, {f: "a"}}, hasLimit: true, limit: 1},
+		} {
+			g := g
+			want := c16Groups(g.eval(m))
+			calls = append(calls, c16Call{pql: g.pql(), judge: func(v interface{}) (string, string, string) {
+				_, got := c16GotGroups(v)
+				if _, isErr := v.(error); isErr {
+					got = fmt.Sprint(v)
+				}
+				return got, want, "GroupBy over a bool field wrong " + g.shape()
+			}})
+		}
+		for _, fn := range []string{"MinRow", "MaxRow"} {
+			fn := fn
+			rows := m.rows("bf", false, 0)
+			want := "none"
+			if len(rows) > 0 {
+				want = fmt.Sprint(rows[0])
+				if fn == "MaxRow" {
+					want = fmt.Sprint(rows[len(rows)-1])
+				}
+			}
+			calls = append(calls, c16Call{pql: fn + "(field=bf)", judge: func(v interface{}) (string, string, string) {
+				p, ok := v.(Pair)
+				if !ok {
+					return fmt.Sprintf("%T:%v", v, v), want, fn + " on a bool field wrong"
+				}
+				got := "none"
+				if p.Count > 0 {
+					got = fmt.Sprint(p.ID)
+				}
+				return got, want, fn + " on a bool field wrong"
+			}})
+		}
+		c16RunCalls(c, e, index, ds, calls)
+		if mask != 0 {
+			c.Distinct(ds)
+		}
+		if mask == 1<<uint(len(cand))-1 {
+			c.Sample(fmt.Sprintf("%s (%d calls)", ds, len(calls)))
+		}
+	}, nil)
+}
+
 func TestVerif_C16(t *testing.T) {
 	c := vx.NewCheck("C16", "exploration",
 		"datasets (every subset of the candidate bits of two set fields over three shards x treatment of two ghost bits x write path) x every Rows(previous x limit x column), MinRow/MaxRow(filter), GroupBy(children x limit x offset x filter x child limit/column) call, paging loops run to exhaustion; time field: every subset of timestamped bits x from/to x limit x previous x column; oracle = sorted distinct non-empty rows / exact cross-product counts / concatenated pages == unpaged; distinct = distinct non-empty datasets")
@@ -1414,6 +1524,7 @@ func TestVerif_C16(t *testing.T) {
 	}
 	c16Part1(c, nb, wrapKnown)
 	c16Part2(c)
+	c16Part3(c)
 	c.Assume("single node, executor worker pool of 1; rows 0..3(4), three shards; GroupBy `previous` only as the cursor taken from the last group of a page (as documented)")
 	if c.Finish() != 0 {
 		t.Fail()
